@@ -402,6 +402,34 @@ def _pipeline(ctx, pb, zn, zd, owners, style, case, nblocks, other):
         cur_n, cur_d = rn, rd
         lastop = sitename
 
+    # ---- observers must not compute: str/repr/len/getters/contains/get_axis on the lazy result
+    if isinstance(cur_d, pb.Signal) and isinstance(cur_d.data, da.Array):
+        sent0 = SENT["n"]
+        with tripwire(trip):
+            try:
+                obs_d = (len(str(cur_d)) > 0, repr(cur_d)[:9], len(cur_d), cur_d.shape, cur_d.ndim,
+                         str(cur_d.dtype), cur_d.sample_shape, cur_d.get_axis("time"),
+                         str(cur_d.dt), str(cur_d.time_length),
+                         None if cur_d.stop_time is None else cur_d.stop_time.isot,
+                         str(getattr(cur_d, "channel_freqs", None)), str(getattr(cur_d, "bandwidth", None)),
+                         getattr(cur_d, "nchan", None))
+                obs_n = (len(str(cur_n)) > 0, repr(cur_n)[:9], len(cur_n), cur_n.shape, cur_n.ndim,
+                         str(cur_n.dtype), cur_n.sample_shape, cur_n.get_axis("time"),
+                         str(cur_n.dt), str(cur_n.time_length),
+                         None if cur_n.stop_time is None else cur_n.stop_time.isot,
+                         str(getattr(cur_n, "channel_freqs", None)), str(getattr(cur_n, "bandwidth", None)),
+                         getattr(cur_n, "nchan", None))
+            except Exception as e:
+                ctx.violate("dask-numpy-mismatch", "observers:raises",
+                            f"str/repr/len/getters on the Dask-backed result raised {type(e).__name__}: {e}")
+        if trip or SENT["n"] != sent0:
+            ctx.violate("not-lazy", "observers:computed",
+                        "str/repr/len/property getters of a Dask-backed signal computed the graph")
+        if obs_d[1:] != obs_n[1:]:
+            ctx.violate("dask-numpy-mismatch", "observers:values",
+                        f"getters differ: dask {obs_d} numpy {obs_n}")
+        ctx.probe("observers_on_lazy_result")
+
     # ---- compute under the simulated cluster --------------------------------------
     def data_of(r):
         return r.data if isinstance(r, pb.Signal) else r
